@@ -279,7 +279,9 @@ func c18NodeFaults() vh.Unit {
 func c18AddressFamilies() vh.Unit {
 	return vh.Unit{Name: "address-families", Run: func(u *vh.U) {
 		vsched.SetVirtualClock(false)
-		hosts := []string{"10.0.0.9", "10.0.0.5", "192.168.1.4", "172.16.5.5", "100.64.0.7", "169.254.3.3", "8.8.4.4", "[fd00::1]", "[fd00::2]", "[fe80::1]", "[2001:db8::7]"}
+		hosts := []string{"10.0.0.9", "10.0.0.5", "192.168.1.4", "172.16.5.5", "100.64.0.7", "169.254.3.3", "8.8.4.4", "[fd00::1]", "[fd00::2]", "[fe80::1]", "[2001:db8::7]",
+			// names, and the addresses that mean "no particular host"
+			"node-a.example.org", "node-b.example.org", "localhost", "127.0.0.1", "[::1]", "0.0.0.0"}
 		for _, a := range hosts {
 			for _, b := range hosts {
 				for _, ports := range [][2]string{{"30303", "30303"}, {"30303", "1234"}} {
@@ -305,7 +307,7 @@ func c18AddressFamilies() vh.Unit {
 				}
 			}
 		}
-		u.Sample("11 x 11 address pairs x same/other port x strict on/off")
+		u.Sample("17 x 17 host pairs (address families, DNS names, loopback / unspecified) x same/other port x strict on/off")
 	}}
 }
 
